@@ -20,7 +20,7 @@ fusion   (do_loop_fusion)
     second loop's variable (same, other, other in upper case), lower / upper bound different but compatible
     (literal, n-1, n+1, other symbol), `range(..)` hints on one / all pragmas, named group, two interleaved groups,
     three loops, statement between the loops, insert-loc, collapse(2) on perfect nests (+ non-matching inner
-    bound), private scalar in the bodies, conditional in a body, explicit unit step, non-unit / negative step
+    bound, + index names swapped between the nests: i/j then j/i), private scalar in the bodies, conditional in a body, explicit unit step, non-unit / negative step
     (Polyhedron asserts: refusal).  Legality holds by construction: every loop updates its own array from
     read-only data.
 fission  (do_loop_fission, FissionTransformer, promotion_dimensions_from_loop_nest)
@@ -340,7 +340,7 @@ F_MENU = {
     'third': ['same', 'other_group'],
     'between': [True],
     'insert_loc': [True],
-    'collapse': [2, '2_inner_differs'],
+    'collapse': [2, '2_inner_differs', '2_swapped'],
     'scalar_tmp': [True],
     'cond_body': [True],
     'step': ['unit', 'two', 'descending'],
@@ -363,8 +363,11 @@ def f_build(dev):
         out = [f'!$loki loop-fusion{group}{colp}{pragma_extra}', f'do {var} = {lo}, {hi}{step}']
         if col:
             inner_hi = 'm - 1' if (col == '2_inner_differs' and idx == 2) else 'm'
-            out += [f'  do jj = 1, {inner_hi}',
-                    f'    {arr}2({var}, jj) = {arr}2({var}, jj) + p({var})*real(jj)*{coef}', '  end do']
+            # '2_swapped': nest 1 runs i/j, nest 2 runs j/i (its inner variable is the first nest's outer one), so the
+            # renaming of the second body has to be one simultaneous substitution
+            iv = {1: 'j', 2: 'i'}.get(idx, 'jj') if col == '2_swapped' else 'jj'
+            out += [f'  do {iv} = 1, {inner_hi}',
+                    f'    {arr}2({var}, {iv}) = {arr}2({var}, {iv}) + p({var})*real({iv})*{coef}', '  end do']
         elif dev.get('cond_body') and idx == 2:
             out += [f'  if (p({var}) > 0.5) then', f'    {arr}({var}) = {arr}({var}) + {coef}', '  else',
                     f'    {arr}({var}) = {arr}({var}) - real({var})', '  end if']
@@ -381,6 +384,8 @@ def f_build(dev):
     third = dev.get('third')
     if third == 'other_group' and not col:
         L += loop(3, 'i', '1', 'n', 'c', '4.0', group=' group(g2)')
+    if col == '2_swapped':
+        v2 = 'j'
     L += loop(2, v2, lo2, hi2, 'b', '0.5', (rng if hint else '') + (' insert-loc' if dev.get('insert_loc') else ''))
     if third == 'same' and not col:
         L += loop(3, 'i', '1', 'm', 'c', '4.0', rng if hint == 'all' else '')
